@@ -38,6 +38,14 @@ def run(tier, seed, replay=None):
             x = torchtt.TT([c.to(cdt) for c in x.cores])
             dist["dtype:" + str(cdt)] = dist.get("dtype:" + str(cdt), 0) + 1
         if big: form = "x/y" if i % 2 == 0 else "scalar/y"; dist["high-rank quotient"] = dist.get("high-rank quotient", 0) + 1
+        if i in (1, 2, 3) and not big:
+            # engineered: divisors of tiny magnitude (the contract is relative: x / (c y) = (x / y) / c), carried by the first core, with a quotient of rank above 6
+            N = [[8, 6, 5], [7, 7, 4], [9, 5, 5]][i - 1]; d = 3; cdt = dt
+            z = solverkit.rand_tt_float(rng, N, [1, 3, 3, 1], dt); z = z * (2.0 / max(1e-300, float(z.full().abs().max())))
+            y = (z * z + 1.0).round(1e-14); ysc = [1e-14, 1e-9, 1e-14][i - 1]
+            y = torchtt.TT([c * (ysc if k_ == 0 else 1.0) for k_, c in enumerate(y.cores)])
+            x = solverkit.rand_tt_float(rng, N, [1, 2, 2, 1], dt)
+            form = ["x/y", "scalar/y", "elementwise_divide"][i - 1]; dist["tiny divisor"] = dist.get("tiny divisor", 0) + 1
         sd = rng.randrange(1 << 30); torch.manual_seed(sd)
         desc = {"form": form, "N": N, "rank_x": [int(r) for r in x.R], "rank_y": [int(r) for r in y.R], "torch_seed": sd, "dtype": str(cdt)}
         dist[form] = dist.get(form, 0) + 1
